@@ -137,6 +137,12 @@ def allowedValues (c : Cfg) (args : List PV) (kw : List (Name × PV)) : List PV 
     ++ ((c.sig.posNames.zip args).filter (fun kv => (findP c.ps kv.1).isNone)).map (·.2)
     ++ c.sig.named.filterMap (·.dflt)
 
+/-- decidable guard of the "any signature" theorems: the VAR_POSITIONAL parameter, if there is one, is spelled `*args` —
+    the only spelling the positional loop of `_wrapper_content` recognises (`'*args' in str(signature)`, `k == 'args'`).
+    For `*rest` the tuple of surplus positionals is treated like one ordinary argument called `rest` (finding
+    `varPositionalNotNamedArgs`). -/
+def Sig.varSpelledArgs (s : Sig) : Bool := !s.varArgs || s.varName == argsName
+
 /-! ### C13: binding by name -/
 
 /-- what the caller supplied for a signature parameter (positional prefix first, else keyword) -/
